@@ -170,7 +170,7 @@ def run_copy(ctx, proof_ok):
 
 
 def run(ctx):
-    proof = vlib.coq_prove(ctx, FILES)
+    proof = vlib.coq_prove(ctx, FILES, leaves=['callbacklist', 'ctors', 'queue'])
     cstats = run_copy(ctx, proof['ok'])
     # callback lists under restructuring
     names = ('multi_functor', 'single_stdfunction') if ctx.tier == 'quick' else ('multi_functor', 'single_stdfunction', 'spinlock_functor')
